@@ -29,6 +29,7 @@ pub fn run_property(ctx: &Ctx) -> Option<Report> {
             listen::run(ctx, &mut r);
             listen::run_drop_race(ctx, &mut r);
             listen::run_slow_drop(ctx, &mut r);
+            r.rule.push_str("; sub-check event-during-handle-drop: an event (local write or gossip message) dispatched while another thread is inside a handle drop must neither panic nor be lost for the other subscriptions; non-trivial = every case");
             r
         }
         "C17" => {
@@ -48,6 +49,7 @@ pub fn run_property(ctx: &Ctx) -> Option<Report> {
             r.assume("strings are at most 65,535 bytes; the sender's own digest leaves at least 100 bytes");
             r.assume("the reply is decoded by the independent decoder and compared with the sender's copies read through the public API");
             mtu::run(ctx, &mut r);
+            r.rule.push_str("; sub-check huge-digest: cases = (1..40 members whose node ids are padded so that the sender's own digest leaves 100..1,200 bytes, own key-values owed to the peer); non-trivial = every case (the reply is always truncated)");
             r
         }
         "C08" => {
@@ -93,6 +95,7 @@ pub fn run_property(ctx: &Ctx) -> Option<Report> {
                 // the statement's size assumption made tight: a key-value that exactly fits
                 mtu::run_max_value(ctx, &mut r);
                 mtu::run_bulk(ctx, &mut r);
+                r.rule.push_str("; sub-check bulk-compressible: cases = (number of small compressible entries 500..6,000, value length, text pattern, initiator), all messages through the real codec, every handshake must advance the joiner; non-trivial = more than 256 KiB of entries");
             }
             r
         }
@@ -132,6 +135,7 @@ pub fn run_property(ctx: &Ctx) -> Option<Report> {
             fd::run_c10(ctx, &mut r);
             // server level: the gossip round ends with an evaluation whatever its sends did
             srv::run_targets(ctx, &mut r);
+            r.rule.push_str("; sub-check server-round-targets (real server, scripted transport, per-destination send failures, optional application liveness predicate): after >= 5 gossip rounds every heartbeating peer is live and every silent peer is in the dead set; non-trivial = own address among the seeds or no live peer");
             r
         }
         "C11" => {
@@ -158,7 +162,9 @@ pub fn run_property(ctx: &Ctx) -> Option<Report> {
             hostile::run(ctx, &mut r);
             // a message processed while an application thread is dropping a listener handle
             listen::run_slow_drop(ctx, &mut r);
-            r.push(fuzzers::corpus_replay(ctx, &["hostile_process", "wire_decode"], ctx.tier.pick(400, 4000)));
+            r.rule.push_str("; sub-check event-during-handle-drop: cases = (prefix, key, local write or gossip message, destructor hold time): an event dispatched while another thread is inside a listener-handle drop must not panic; non-trivial = every case. A death of the check process is attributed to the in-flight case (replayed alone in a fresh process)");
+            r.push(fuzzers::corpus_replay(ctx, &["hostile_process", "wire_decode"]
+, ctx.tier.pick(400, 4000)));
             if ctx.tier == Tier::Thorough {
                 r.push(fuzzers::campaign(ctx, "hostile_process", (1_500_000f64 * ctx.scale) as u64, 65_507));
                 r.push(fuzzers::campaign(ctx, "wire_decode", (2_000_000f64 * ctx.scale) as u64, 65_507));
